@@ -197,10 +197,10 @@ func c12Streams(thorough bool) []*c12Stream {
 		n     int
 		sizes []int
 	}
-	splits := []split{{0, nil}, {1, []int{1}}, {2, []int{1, 1}}, {3, []int{3}}, {3, []int{1, 2}}, {5, []int{2, 3}}, {6, []int{1, 2, 3}}}
+	splits := []split{{0, nil}, {1, []int{1}}, {2, []int{1, 1}}, {3, []int{3}}, {3, []int{1, 2}}, {5, []int{2, 3}}, {6, []int{1, 2, 3}}, {4, []int{2, 2}}, {6, []int{2, 2, 2}}}
 	algos := []string{"crc32", "sha256"}
 	if thorough {
-		splits = append(splits, split{12, []int{5, 1, 6}}, split{9, []int{9}}, split{17, []int{16, 1}}, split{4, []int{4}}, split{4, []int{2, 2}})
+		splits = append(splits, split{12, []int{5, 1, 6}}, split{9, []int{9}}, split{17, []int{16, 1}}, split{4, []int{4}}, split{8, []int{2, 2, 2, 2}})
 		algos = gw.ChecksumAlgos
 	}
 	for _, sp := range splits {
